@@ -24,7 +24,7 @@ for d in sorted(glob.glob(V + "/seeded/*")):
         v = "caught" if cr.get("replay_kind") == "failing-input" else "no-input"
     cl = ", ".join(sorted(set(cr.get("failed_clauses") or [])))[:60]
     rows.setdefault(prop, []).append(f"{tag}: {v}" + (f" ({cl})" if cl else ""))
-seed = ["| property | theorems | seeds (round 1: s1-s3, rounds 2-9: r2s1-r9s3; verdict of the quick check: clause) |", "|---|---|---|"]
+seed = ["| property | theorems | seeds (round 1: s1-s3, rounds 2-10: r2s1-r10s3; verdict of the quick check: clause) |", "|---|---|---|"]
 for pdir in sorted(glob.glob(V + "/coq/theories/C[0-9][0-9]")):
     prop = os.path.basename(pdir)
     n = sum(len(re.findall(r"^\s*Theorem\s", open(pf).read(), re.M)) for pf in glob.glob(pdir + "/*Props*.v"))
